@@ -1,10 +1,8 @@
 """C12/C13 driver: real bin2tap.main -> real tap2sna.main and projection of the resulting snapshot."""
-import base64
 import os
 import random
-import struct
 
-from . import pipedrv
+from . import pipedrv, replaylib
 
 
 def parse_tap(path):
@@ -224,20 +222,19 @@ def worker(args):
     out = []
     for k in range(n):
         idx = seed * 1000 + k if systematic else None
-        st = rnd.getstate()
+        st = replaylib.rnd_state(rnd)
         g = gen_case(rnd, idx)
         c = run_case(sub, k, g, rnd)
         c.pop('ramfull', None)
         # the generator's state before this case: program bytes of any size, screen and bank contents follow from it (--replay)
-        c['gen'] = {'idx': idx, 'mt': base64.b64encode(struct.pack('<625I', *st[1])).decode('ascii'), 'gauss': st[2], 'version': st[0]}
+        c['gen'] = dict(st, idx=idx, k=k)          # k: the scratch file names carry it, and bin2tap puts the file name on the tape
         out.append(c)
     return out
 
 
 def regen(gen):
     """-> (g, rnd) exactly as they were when the recorded case was generated."""
-    rnd = random.Random(0)
-    rnd.setstate((gen['version'], tuple(struct.unpack('<625I', base64.b64decode(gen['mt']))), gen['gauss']))
+    rnd = replaylib.rnd_restore(gen)
     return gen_case(rnd, gen['idx']), rnd
 
 
